@@ -92,6 +92,8 @@ pub fn base_plan() -> Plan {
         date_text: None,
         scope_override: None,
         credential_override: None,
+        key_scope_override: None,
+        raw_key_override: None,
     }
 }
 
